@@ -42,6 +42,12 @@ def classify(p, lib):
             elif kind == 'map':
                 getattr(page, fname)['k0'].name = 'v0'
                 exp[fname] = [['k0', 'v0']]
+            elif kind == 'map-enum':
+                getattr(page, fname)['k0'] = 2
+                exp[fname] = [['k0', 2]]
+            elif kind == 'enum':
+                getattr(page, fname).extend([1, 2, 1])
+                exp[fname] = [1, 2, 1]
             else:
                 getattr(page, fname).name = 'single'
         ch.log.clear()
@@ -53,8 +59,8 @@ def classify(p, lib):
             o['type'] = type(ret).__name__
             if o['paged'] and c['first_rep']:
                 fname, kind = c['first_rep']
-                got = [[k, v.name] for k, v in ret] if kind == 'map' else [
-                    (x.name if kind == 'msg' else x) for x in ret]
+                got = ([[k, v.name] for k, v in ret] if kind == 'map' else [[k, int(v)] for k, v in ret] if kind == 'map-enum' else
+                       [(x.name if kind == 'msg' else int(x) if kind == 'enum' else x) for x in ret])
                 o['got_items'], o['exp_items'] = got, exp[fname]
                 o['items_ok'] = got == exp[fname]
             else:
